@@ -2,6 +2,7 @@
 from __future__ import annotations
 
 import ast
+import statistics
 
 from sa import pat as P
 from sa import source
@@ -9,7 +10,7 @@ from sa.cfg import cfg_of, guards
 from sa.minieval import CannotEval, Record, ev
 from sa.source import AnchorMissing, arg_of, bind_args, dotted, is_self_attr, last_attr, local_defs, params_of, short, u, walk_body
 from sa.sym import UnknownAtom, atoms_of, comparison, parse_expr, rat_equal
-from sa.tables import Unsupported, decide
+from sa.tables import Outcome, Unsupported, decide
 
 _M = "esrally/metrics.py"
 
@@ -50,6 +51,184 @@ def _il(e, defs):
     return u(source.inline_node(e, defs)) if e is not None else None
 
 
+class _WouldRaise(Exception):
+    """the extracted expression, evaluated on the representative value, raises at run time (an aggregate over / an index into an empty sequence)."""
+
+
+_AGGREGATES = {"min": min, "max": max, "sum": sum, "statistics.median": statistics.median, "statistics.median_low": statistics.median_low, "statistics.median_high": statistics.median_high,
+               "statistics.mean": statistics.mean, "statistics.fmean": statistics.fmean}
+
+
+def _sev(e, env):
+    """local extension of minieval.ev for statistics records (minieval folds `min([])` into CannotEval and does not know the statistics module): a one-argument aggregate call and a
+    constant index are evaluated here and report the exception Python raises on an empty / too short sequence as _WouldRaise; everything else is left to ev."""
+    if isinstance(e, ast.Call) and dotted(e.func) in _AGGREGATES and len(e.args) == 1 and not e.keywords:
+        v = _sev(e.args[0], env)
+        if not isinstance(v, (list, tuple)):
+            raise CannotEval(f"{u(e)[:60]}: argument is not a sequence")
+        if len(v) == 0 and dotted(e.func) != "sum":
+            raise _WouldRaise(f"`{u(e)}` is evaluated on an empty sequence ({'StatisticsError' if dotted(e.func).startswith('statistics.') else 'ValueError'})")
+        try:
+            return _AGGREGATES[dotted(e.func)](v)
+        except (TypeError, ValueError, statistics.StatisticsError) as x:
+            raise CannotEval(f"{u(e)[:60]}: {type(x).__name__}")
+    if isinstance(e, ast.Subscript) and not isinstance(e.slice, ast.Slice):
+        v, k = _sev(e.value, env), _sev(e.slice, env)
+        if isinstance(v, (list, tuple)) and isinstance(k, int) and not isinstance(k, bool) and not -len(v) <= k < len(v):
+            raise _WouldRaise(f"`{u(e)}` indexes a sequence of length {len(v)} (IndexError)")
+    return ev(e, env)
+
+
+def _collect(loop, env):
+    """run `for <name> in <evaluable>: <list>.append(e) | <list>.extend(e) | <list> += e | <such a loop>` on the values in env (tables.decide does not interpret loops);
+    False (env untouched) when the loop is of any other shape or something in it is not evaluable."""
+    trial = {k: (list(v) if isinstance(v, list) else v) for k, v in env.items()}
+
+    def run_(lp, e_):
+        if not isinstance(lp.target, ast.Name) or lp.orelse:
+            return False
+        it = _sev(lp.iter, e_)
+        if not isinstance(it, (list, tuple)):
+            return False
+        for item in it:
+            e_[lp.target.id] = item
+            for st in lp.body:
+                if isinstance(st, ast.For):
+                    if not run_(st, e_):
+                        return False
+                    continue
+                if isinstance(st, ast.Expr) and isinstance(st.value, ast.Call) and isinstance(st.value.func, ast.Attribute) and isinstance(st.value.func.value, ast.Name) \
+                        and st.value.func.attr in ("append", "extend") and len(st.value.args) == 1 and not st.value.keywords:
+                    tgt, how, val = st.value.func.value.id, st.value.func.attr, st.value.args[0]
+                elif isinstance(st, ast.AugAssign) and isinstance(st.op, ast.Add) and isinstance(st.target, ast.Name):
+                    tgt, how, val = st.target.id, "extend", st.value
+                else:
+                    return False
+                v = _sev(val, e_)
+                if not isinstance(e_.get(tgt), list) or (how == "extend" and not isinstance(v, (list, tuple))):
+                    return False
+                e_[tgt] = e_[tgt] + ([v] if how == "append" else list(v))
+        return True
+
+    try:
+        if not run_(loop, trial):
+            return False
+    except (CannotEval, _WouldRaise):
+        return False
+    env.update(trial)
+    return True
+
+
+# per-shard arrays of the records of one index-time metric (docs/metrics.rst: "per-shard contains the times across primary shards in an array"; telemetry.IndexStats stores
+# `[]` when the shard level of the index-stats response cannot be walked)
+SHARD_CASES = [
+    ("no-record", []),
+    ("one-empty-array", [[]]),
+    ("two-empty-arrays", [[], []]),
+    ("one-shard", [[3]]),
+    ("two-records", [[1], [2, 3]]),
+    ("three-records", [[5, 9], [2], [4]]),
+    ("empty-and-filled", [[], [7, 5]]),
+    ("even-count", [[4, 4, 9, 1]]),
+]
+
+
+def per_shard_statistics(chk, rid, met, calc_cls):
+    """Every calculator method that queries the `per-shard` arrays of a metric is evaluated (its own tests and expressions, on representative record sets; nothing of the repository
+    is called): it returns for every record set, with min/median/max of ALL per-shard values when there are any and without numbers when there are none."""
+    sites = []
+    for f in met.methods(calc_cls).values():
+        for c in source.calls_in(f):
+            if isinstance(c.func, ast.Attribute) and is_self_attr(c.func.value, "store") and c.func.attr == "get_raw":
+                mp = arg_of(c, 5, "mapper")
+                mp = local_defs(f).get(mp.id, mp) if isinstance(mp, ast.Name) else mp
+                if isinstance(mp, ast.Lambda) and any(isinstance(x, ast.Subscript) and source.is_const(x.slice, "per-shard") for x in ast.walk(mp.body)):
+                    sites.append((f, c, mp))
+    if not sites:
+        raise AnchorMissing("GlobalStatsCalculator method querying the `per-shard` arrays (self.store.get_raw(..., mapper=lambda doc: doc['per-shard']))")
+    RAW = "__raw__"
+    for f, call, mp in sites:
+        mpar = params_of(mp)
+        if len(mpar) != 1:
+            raise AnchorMissing(f"one-parameter record mapper in GlobalStatsCalculator.{f.name}")
+        call_text = u(call)
+
+        class _Raw(ast.NodeTransformer):
+            """the store query is the only thing this evaluation cannot compute: it stands for the representative list of mapped records."""
+
+            def visit_Call(self, n):
+                if u(n) == call_text:
+                    return ast.Name(id=RAW, ctx=ast.Load())
+                return self.generic_visit(n)
+
+        def raw_in(e):
+            return _Raw().visit(source.clone(e))
+
+        for label, arrays in SHARD_CASES:
+            recs = [{"name": "indexing_total_time", "value": sum(a), "unit": "ms", "per-shard": list(a)} for a in arrays]
+            flat = [w for a in arrays for w in a]
+            want = {"min": min(flat), "median": statistics.median(flat), "max": max(flat)} if flat else {"min": None, "median": None, "max": None}
+            key = f"{_M}:GlobalStatsCalculator.{f.name}:per-shard:{label}"
+            inst = f"{f.name}: per-shard arrays {arrays} -> {'min/median/max of ' + str(sorted(flat)) if flat else 'no per-shard statistics (and no exception)'}"
+            try:
+                env = {RAW: [ev(mp.body, {mpar[0]: r}) for r in recs]}
+            except CannotEval as x:
+                chk.unknown(rid, f"record mapper of {f.name} is not evaluable on a per-shard record: {x}", mp)
+                break
+            raised = []
+
+            def on_stmt(s, env_, b):
+                # plain assignments are computed on the representative value; what cannot be computed (another store query: the unit) stays symbolic
+                if isinstance(s, ast.Assign) and len(s.targets) == 1 and isinstance(s.targets[0], ast.Name):
+                    nm = s.targets[0].id
+                    try:
+                        env_[nm] = _sev(raw_in(s.value), env_)
+                        b.pop(nm, None)
+                        return "skip"
+                    except _WouldRaise as x:
+                        raised.append(str(x))
+                        return Outcome("raise", None, node=s)
+                    except CannotEval:
+                        env_.pop(nm, None)
+                # a loop that only collects values into a list (the spelt-out form of the flattening comprehension) is run on the representative value
+                if isinstance(s, ast.For) and not s.orelse and _collect(s, env_):
+                    return "skip"
+                return None
+
+            def atom(n, env_):
+                try:
+                    return bool(_sev(raw_in(n), env_))
+                except CannotEval:
+                    return None
+
+            try:
+                out = decide(f.body, atom, env, on_stmt=on_stmt)
+                got = None
+                if out.kind == "return" and out.value is not None and not raised:
+                    rv = raw_in(out.value)
+                    if isinstance(rv, ast.Dict) and all(isinstance(k, ast.Constant) for k in rv.keys):
+                        # a record literal: only the three statistics are interpreted (the unit comes from another store query)
+                        got = {k.value: _sev(v, env) for k, v in zip(rv.keys, rv.values) if k.value in want}
+                    else:
+                        got = _sev(rv, env)
+                elif out.kind in ("return", "fallthrough") and not raised:
+                    got = {}
+                if raised or out.kind == "raise":
+                    ok, detail = False, (raised[0] if raised else out.text()) + ": the exception aborts the whole result calculation"
+                elif got is None or isinstance(got, dict):
+                    got = {k: (got or {}).get(k) for k in want}
+                    ok = got == want and all((got[k] is None) == (want[k] is None) for k in want)
+                    detail = "" if ok else f"result {got}, expected {want}"
+                else:
+                    ok, detail = False, f"result {got!r} is not a statistics record"
+            except _WouldRaise as x:
+                ok, detail = False, f"{x}: the exception aborts the whole result calculation"
+            except (Unsupported, UnknownAtom, CannotEval) as x:
+                chk.unknown(rid, f"{f.name} is not decidable on the per-shard arrays {arrays}: {x}", f)
+                continue
+            chk.ob(rid, inst, ok, f, detail, key=key)
+
+
 def run(chk):
     repo = chk.repo
     met = repo.module(_M)
@@ -59,7 +238,8 @@ def run(chk):
         "the percentile set derives from a Normal-filtered query; the percentile selector evaluated over 15 boundary counts is a total, monotone function of the count (ends with 100, "
         "contains 50 for counts > 1); attribute/key agreement between calculator, results class and op-metrics records; Race.as_dict/from_dict key and positional agreement; the in-memory "
         "percentile equals the documented linear interpolation (formula identity); stats come from the sorted filtered values; error rate == failed/all over the task's Normal "
-        "service_time records; optional statistics are never tested by truthiness (known finding F11)."
+        "service_time records; optional statistics are never tested by truthiness (known finding F11); the per-shard statistics method, evaluated on 8 representative sets of per-shard "
+        "arrays (none / only empty / mixed / several records), returns for each of them, with min/median/max of all per-shard values or without numbers (F34)."
     )
     chk.not_decided = "floating-point behaviour of the interpolation, the ES-backed store's aggregations, loss-freeness of JSON number round-trips."
     GC = met.cls("GlobalStatsCalculator")
@@ -551,6 +731,14 @@ def run(chk):
             chk.adv("O8.5", "EsMetricsStore tests `if sample_type:` on an IntEnum whose Warmup member is 0: a Warmup filter is silently dropped (results use Normal, so outside the property)", n)
             break
 
+    # ---- O8.10 per-shard statistics ----------------------------------------------------------------------------------------------------------------------------------
+    chk.rule("O8.10", "per-shard statistics are total over the stored records: for every representative set of `per-shard` arrays (none, only empty ones, empty and filled, one / several "
+             "records) the method returns; min/median/max are those of ALL per-shard values when there are any, and no number is reported when there are none (the aggregates are "
+             "evaluated only when the flattened list is non-empty)", len(SHARD_CASES),
+             "a race whose only index-time records carry an empty `per-shard` array (shard level of the index-stats response not available; IndexStats stores [] then): min() of an "
+             "empty list raises ValueError in the results calculator, no summary is computed and race.json keeps no results at all (F34)")
+    per_shard_statistics(chk, "O8.10", met, GC)
+
 
 from sa.selftest import V  # noqa: E402
 
@@ -575,4 +763,17 @@ VARIANTS = [
     V("convex-combination form", "keep", _M, "            return lower_score + (higher_score - lower_score) * fr", "            return lower_score * (1 - fr) + higher_score * fr"),
     V("local alias of the sample type", "keep", _M, "        mean = self.store.get_mean(metric_name, task=task_name, operation_type=operation_type, sample_type=SampleType.Normal)", "        normal = SampleType.Normal\n        mean = self.store.get_mean(metric_name, task=task_name, operation_type=operation_type, sample_type=normal)"),
     V("threshold written the other way", "keep", _M, "    elif 10 <= sample_size < 100:", "    elif sample_size >= 10 and sample_size < 100:"),
+    # F34 (repaired in rally 9a08e75): the guard of the per-shard aggregates must be on the flattened values
+    V("F34 reverted: per-shard aggregates guarded by the list of arrays", "break", _M,
+      "        flat_values = [w for v in values for w in v] if values else []\n        # records with an empty per-shard array (shard level of the stats response not available) contribute nothing\n        if flat_values:\n",
+      "        if values:\n            flat_values = [w for v in values for w in v]\n", "O8.10"),
+    V("F34 equivalent break: guard on the number of records", "break", _M, "        if flat_values:\n            return {\n                \"min\": min(flat_values),", "        if len(values) > 0:\n            return {\n                \"min\": min(flat_values),", "O8.10"),
+    V("per-shard median of the first record only", "break", _M, "                \"median\": statistics.median(flat_values),", "                \"median\": statistics.median(values[0]),", "O8.10"),
+    V("F34 respelled: explicit length test", "keep", _M, "        if flat_values:\n            return {\n                \"min\": min(flat_values),", "        if len(flat_values) > 0:\n            return {\n                \"min\": min(flat_values),"),
+    V("F34 respelled: flatten without the outer emptiness test", "keep", _M, "        flat_values = [w for v in values for w in v] if values else []", "        flat_values = [w for v in values for w in v]"),
+    V("F34 respelled: flattening spelt as a loop", "keep", _M, "        flat_values = [w for v in values for w in v] if values else []", "        flat_values = []\n        for v in values:\n            flat_values.extend(v)"),
+    V("per-shard max of the last record only", "break", _M, "                \"max\": max(flat_values),", "                \"max\": max(values[-1]),", "O8.10"),
+    V("F34 respelled: guard clause and order statistics of the sorted values", "keep", _M,
+      "        if flat_values:\n            return {\n                \"min\": min(flat_values),\n                \"median\": statistics.median(flat_values),\n                \"max\": max(flat_values),",
+      "        if not any(True for v in values for w in v):\n            return {}\n        ordered = sorted(flat_values)\n        if ordered:\n            return {\n                \"min\": ordered[0],\n                \"median\": statistics.median(ordered),\n                \"max\": ordered[-1],"),
 ]
